@@ -23,7 +23,9 @@ import (
 	"io"
 	"log/slog"
 	"math/rand"
+	"os"
 	"runtime"
+	"strconv"
 	"strings"
 	"sync"
 	"sync/atomic"
@@ -127,6 +129,42 @@ func (w *c17World) pid(i int) peer.ID {
 	return peer.ID(fmt.Sprintf("c17-synthetic-peer-%d", i))
 }
 
+// the Service's log, kept only to attribute a refused inbound connection to the gater
+type c17Log struct {
+	mu   sync.Mutex
+	recs []string
+}
+
+func (l *c17Log) Enabled(context.Context, slog.Level) bool { return true }
+func (l *c17Log) WithAttrs([]slog.Attr) slog.Handler       { return l }
+func (l *c17Log) WithGroup(string) slog.Handler            { return l }
+func (l *c17Log) Handle(_ context.Context, r slog.Record) error {
+	line := r.Message
+	r.Attrs(func(a slog.Attr) bool {
+		line += " " + a.Key + "=" + a.Value.String()
+		return true
+	})
+	l.mu.Lock()
+	l.recs = append(l.recs, line)
+	l.mu.Unlock()
+	return nil
+}
+func (l *c17Log) gaterRefused(id peer.ID) bool {
+	l.mu.Lock()
+	defer l.mu.Unlock()
+	for _, ln := range l.recs {
+		if strings.Contains(ln, "blocklisted") && strings.Contains(ln, id.String()) {
+			return true
+		}
+	}
+	return false
+}
+func (l *c17Log) reset() {
+	l.mu.Lock()
+	l.recs = nil
+	l.mu.Unlock()
+}
+
 func c17Tick() {
 	a := time.Now()
 	for !time.Now().After(a) {
@@ -141,7 +179,7 @@ func c17B(b bool) int64 {
 }
 
 // a Service assembled by libp2p.New itself (gater installed in the host by New)
-func c17NewService(w *c17World, pt int) *Service {
+func c17NewService(w *c17World, pt int, rec *c17Log) *Service {
 	key, err := ethcrypto.GenerateKey()
 	if err != nil {
 		panic(err)
@@ -152,7 +190,7 @@ func c17NewService(w *c17World, pt int) *Service {
 		PeerType:   p2p.PeerType(pt),
 		ListenPort: 0,
 		ListenAddr: "127.0.0.1",
-		Logger:     w.log,
+		Logger:     slog.New(rec),
 		MetricsReg: prometheus.NewRegistry(),
 	})
 	if err != nil {
@@ -192,28 +230,39 @@ func c17ServiceGoroutines() []string {
 }
 
 // a plain libp2p host with the identity of peer i dials the service: is the (secured) inbound
-// connection accepted and kept?
-func c17Inbound(svc *Service, h host.Host) bool {
+// connection accepted and kept?  "Refused" is only concluded when the service's gater said so (its
+// log line for this peer); a connection that fails for any other reason (listen/dial trouble on a
+// loaded machine, resource limits) makes the attempt inconclusive and the case is dropped.
+func c17Inbound(svc *Service, rec *c17Log, h host.Host, slow int) (allowed, conclusive bool) {
 	target := peer.AddrInfo{ID: svc.host.ID(), Addrs: svc.host.Addrs()}
 	for attempt := 0; attempt < 2; attempt++ {
 		if sw, isSwarm := h.Network().(*swarm.Swarm); isSwarm {
 			sw.Backoff().Clear(target.ID)
 		}
-		ctx, cancel := context.WithTimeout(context.Background(), 3*time.Second)
+		rec.reset()
+		ctx, cancel := context.WithTimeout(context.Background(), time.Duration(slow)*3*time.Second)
 		err := h.Connect(ctx, target)
 		cancel()
 		if err == nil {
-			time.Sleep(50 * time.Millisecond) // a refusing side closes right after the security handshake
+			// a refusing side closes right after the security handshake: wait until the gater has
+			// spoken or the connection has stood for a while on both sides
+			deadline := time.Now().Add(time.Duration(slow) * 60 * time.Millisecond)
+			for time.Now().Before(deadline) && !rec.gaterRefused(h.ID()) {
+				time.Sleep(5 * time.Millisecond)
+			}
 			kept := len(h.Network().ConnsToPeer(target.ID)) > 0 && len(svc.host.Network().ConnsToPeer(h.ID())) > 0
 			_ = h.Network().ClosePeer(target.ID)
 			_ = svc.host.Network().ClosePeer(h.ID())
-			if kept {
-				return true
+			if kept && !rec.gaterRefused(h.ID()) {
+				return true, true
 			}
+		}
+		if rec.gaterRefused(h.ID()) {
+			return false, true
 		}
 		time.Sleep(100 * time.Millisecond)
 	}
-	return false
+	return false, false
 }
 
 // one attempt; ok=false when the real clock did not stay within half a granule
@@ -221,8 +270,13 @@ func c17Try(w *c17World, in c17In) (obs c17Obs, ok bool) {
 	var s *Service
 	var g *gater
 	intruders := map[int]host.Host{}
+	rec := &c17Log{}
+	slow := 1
+	if v, err := strconv.Atoi(os.Getenv("VERIF_SLOW")); err == nil && v > 0 {
+		slow = v
+	}
 	if in.Mode == "e2e" {
-		s = c17NewService(w, in.PT)
+		s = c17NewService(w, in.PT, rec)
 		defer s.Close()
 		defer func() {
 			for _, h := range intruders {
@@ -284,7 +338,11 @@ func c17Try(w *c17World, in c17In) (obs c17Obs, ok bool) {
 					}
 					intruders[op.P] = h
 				}
-				st.Ans = append(st.Ans, c17B(c17Inbound(s, h)))
+				allowed, conclusive := c17Inbound(s, rec, h, slow)
+				if !conclusive {
+					return c17Obs{}, false // environment trouble: no verdict from this attempt
+				}
+				st.Ans = append(st.Ans, c17B(allowed))
 			} else {
 				st.Ans = append(st.Ans, c17B(g.InterceptSecured(network.DirInbound, p, w.cm)))
 			}
@@ -637,7 +695,7 @@ func TestVerifC17(t *testing.T) {
 	var idleObs c17Obs
 	idleOK := false
 	if !e.OnlyReplay() {
-		probe := c17NewService(w, 2)
+		probe := c17NewService(w, 2, &c17Log{})
 		time.Sleep(20 * time.Millisecond)
 		bg := c17ServiceGoroutines()
 		_ = probe.Close()
@@ -681,6 +739,13 @@ func TestVerifC17(t *testing.T) {
 		{K: "query", P: 1}, {K: "secured", P: 1}, {K: "query", P: 1}, {K: "list"}}})
 	run("pinned", c17In{G: G, NP: 2, Ops: []c17Op{{K: "block", P: 0, D: 3000}, {K: "block", P: 0, D: 1200, Adv: 10},
 		{K: "query", P: 0, Adv: 1201}, {K: "list"}, {K: "query", P: 0, Adv: 1788}, {K: "query", P: 0, Adv: 1}}})
+	// a 2-minute re-block more than three minutes into a 5-minute block ends later than the first
+	// one and must replace it; one placed early must not shorten it
+	run("pinned", c17In{G: G, NP: 2, Ops: []c17Op{{K: "block", P: 0, D: 3000}, {K: "block", P: 0, D: 1200, Adv: 2000},
+		{K: "query", P: 0, Adv: 999}, {K: "dial", P: 0, Adv: 101}, {K: "query", P: 0}, {K: "list"}, {K: "secured", P: 0, Adv: 99},
+		{K: "query", P: 0}, {K: "query", P: 0, Adv: 1}, {K: "list"}}})
+	run("pinned", c17In{G: G, NP: 2, Ops: []c17Op{{K: "block", P: 1, D: 3000}, {K: "block", P: 1, D: 1200, Adv: 1700},
+		{K: "query", P: 1, Adv: 1250}, {K: "query", P: 1, Adv: 49}, {K: "query", P: 1, Adv: 1}, {K: "list"}}})
 	// end to end: Services assembled by libp2p.New, one per role of the local node; dials go
 	// through the real host, inbound connections come from real libp2p hosts with the blocked identity
 	GE := int64(10 * time.Second)
